@@ -17,9 +17,10 @@ CHECKS = {
 
 CHECKS.update({
     "C01": ("Hypothesis-generated rulebooks/config chains; patches executed on a reference device simulator (model-based oracle)",
-            "Generated rulebooks over the whole rule language, device trees and chains of up to 4 targets; every emitted patch is executed "
-            "command by command on an independent device simulator and must reach the target, after which the second diff and patch must be "
-            "empty. Exploration: held on every generated chain; says nothing about rulebooks outside the generator's grammar.",
+            "Generated rulebooks over the whole rule language, device trees and chains of up to 4 targets, 13 vendors; every emitted patch is executed "
+            "command by command on an independent device simulator (block-structured streams as sent; the flat set/delete streams of juniper, "
+            "ribbon, nokia through the check's own walk of the patch tree, which the sent stream must spell line by line) and must reach the "
+            "target, after which the second diff and patch must be empty. Exploration: held on every generated chain; says nothing about rulebooks outside the generator's grammar.",
             "Trusted: vf/model/devsim.py + refmatch.py (device semantics per (rule,key)); block rows fully keyed; sibling rules disjoint.",
             "DESIGN.md section 4, C01"),
     "C03": ("Hypothesis-generated rulebooks/config pairs; projection laws, validity predicate for %ordered, and round-trip of both text views",
@@ -169,7 +170,8 @@ CHECKS.update({
             "Sequences of up to 12 jobs (shipped corpus pairs with their shipped rulebooks, synthetic jobs over shared synthetic rulebooks "
             "with rule-mutating logic and shared ACL texts) run in one process: each result must equal the result of the same job in a "
             "fresh interpreter, the caller's trees and the compiled rulebook must be unchanged by each call, and a logic function must "
-            "always see a pristine rule. Exploration over histories.",
+            "always see a pristine rule; every job is also run alone in new interpreters started with other string-hash seeds "
+            "(PYTHONHASHSEED 1..5) and must give the seed-0 result. Exploration over histories.",
             "Trusted: canonical form of compiled rulebooks (vf/props/c18.canon); fresh baselines come from the same code (history vs no history).",
             "DESIGN.md section 4, C20"),
 })
